@@ -50,6 +50,9 @@ def dm_events(ctx):
         a, b = rng.choice(dims), rng.choice(dims)
         pairs.append((a, b))
     pairs += [((1, 1), (200, 200)), ((), (7, 7)), ((145, 145), ()), ((), (17, 9)), ((), (18, 7)), ((20, 10), (40, 12))]
+    # boxes that are not on the size list: taller than wide, very flat, one side huge (the filter compares width with width and height with height)
+    pairs += [((), (16, 48)), ((), (12, 100)), ((), (24, 1000)), ((), (1000, 12)), ((), (48, 17)), ((8, 20), ()), ((30, 9), ()), ((9, 30), (60, 60)),
+              ((), (26, 40)), ((), (40, 26)), ((11, 11), (143, 143)), ((), (rng.randint(8, 150), rng.randint(8, 150))), ((rng.randint(1, 60), rng.randint(1, 60)), ())]
     ns = sorted({n + d for (_, _, n) in dmlib.SIZES for d in (-1, 0, 1)} | {1, 2, 1559, 1560, 3000})
     if not ctx.quick:
         ns = list(range(1, 1561))
